@@ -3,8 +3,8 @@
    Model: model/Pos.v.  Specification: spec/PosSpec.v (eff = last write wins, eff_pairs = the
    non-zero pairs, rank = number of pairs that must precede, canon_ok = executable check). *)
 From Coq Require Import NArith List Bool Permutation Sorted.
-From LV Require Import lib.WordArith model.Pos spec.PosSpec.
-From LV Require Import proofs.PosMapProofs proofs.PosSortProofs proofs.PosBuildProofs proofs.PosBigProofs.
+From LV Require Import lib.WordArith model.Pos model.PosRlp spec.PosSpec.
+From LV Require Import proofs.PosMapProofs proofs.PosSortProofs proofs.PosBuildProofs proofs.PosBigProofs proofs.PosRlpProofs.
 Import ListNotations.
 Local Open Scope N_scope.
 
@@ -51,6 +51,18 @@ Theorem C12_roundtrip : forall ops vs, build ops = Some vs ->
               Permutation (v_values vs') (v_values vs) /\ encode vs' = encode vs.
 Proof. exact roundtrip. Qed.
 
+(* the same through the wire bytes (model/PosRlp.v: writer tied byte for byte to go-ethereum's
+   rlp in the correspondence; reader = model only): the reader inverts the writer, so
+   DecodeRLP (EncodeRLP vs) rebuilds vs and re-encodes to the same bytes *)
+Theorem C12_rlp_reader_inverts_writer : forall arr, vals_fit64 arr -> decode_rlp_array (rlp_array arr) = ROk arr.
+Proof. exact decode_rlp_array_inv. Qed.
+Theorem C12_roundtrip_bytes : forall ops vs, weights_fit ops -> Forall (fun p => fst p < two64) ops ->
+  build ops = Some vs ->
+  decode_rlp (encode_rlp vs) = decode (encode vs) /\
+  exists vs', decode_rlp (encode_rlp vs) = Some vs' /\ v_cache vs' = v_cache vs /\
+              Permutation (v_values vs') (v_values vs) /\ encode_rlp vs' = encode_rlp vs.
+Proof. exact roundtrip_bytes. Qed.
+
 (* --- big stakes --- *)
 (* never panics; the result is the canonical form of the stakes scaled by the one shift that the
    specification accepts (the least s with total >> s < 2^31), zero results dropped *)
@@ -78,6 +90,15 @@ Theorem C12_big_no_truncation : forall m p, In p m ->
   big_weight (big_shift m) (snd p) = N.shiftr (snd p) (big_shift m).
 Proof. exact big_weight_exact. Qed.
 
+(* --- Go ranges over maps in an unspecified order (newValidators, sortedArray, big Build); the
+   model ranges over the association list front to back: any other order gives the same caches --- *)
+Theorem C12_map_order_irrelevant : forall m m', vmap_ok m -> Permutation m m' ->
+  option_map v_cache (new_validators m) = option_map v_cache (new_validators m').
+Proof. exact new_validators_perm. Qed.
+Theorem C12_big_map_order_irrelevant : forall m m', vmap_ok m -> Permutation m m' ->
+  option_map v_cache (build (big_sets m)) = option_map v_cache (build (big_sets m')).
+Proof. exact big_map_order_irrelevant. Qed.
+
 (* --- non-vacuity --- *)
 Definition ex_a : list (N * N) := [(5, 7); (9, 3); (2, 4); (9, 0); (7, 4); (5, 2)].
 Definition ex_b : list (N * N) := [(7, 1); (2, 4); (7, 4); (3, 0); (5, 2)].
@@ -91,6 +112,10 @@ Proof.
 Qed.
 Example C12_ex_roundtrip : forall vs, build ex_a = Some vs ->
   encode vs = [(2, 4); (7, 4); (5, 2)] /\ option_map v_cache (decode (encode vs)) = Some (v_cache vs).
+Proof. intros vs H. vm_compute in H. inversion H; subst. split; vm_compute; reflexivity. Qed.
+Example C12_ex_bytes : forall vs, build [(5, 7); (300, 70000); (2, 7)] = Some vs ->
+  encode_rlp vs = [206; 199; 130; 1; 44; 131; 1; 17; 112; 194; 2; 7; 194; 5; 7] /\
+  decode_rlp_array (encode_rlp vs) = ROk [(300, 70000); (2, 7); (5, 7)].
 Proof. intros vs H. vm_compute in H. inversion H; subst. split; vm_compute; reflexivity. Qed.
 Example C12_ex_big :
   let ops := [(1, 2 ^ 200); (2, 2 ^ 199 + 12345); (3, 77); (4, 2 ^ 200 - 1)] in
@@ -106,8 +131,12 @@ Print Assumptions C12_build_observables.
 Print Assumptions C12_spec_pins_arrangement.
 Print Assumptions C12_build_guard.
 Print Assumptions C12_roundtrip.
+Print Assumptions C12_rlp_reader_inverts_writer.
+Print Assumptions C12_roundtrip_bytes.
 Print Assumptions C12_big_build.
 Print Assumptions C12_big_never_panics.
 Print Assumptions C12_shift_unique.
 Print Assumptions C12_big_weights.
 Print Assumptions C12_big_no_truncation.
+Print Assumptions C12_map_order_irrelevant.
+Print Assumptions C12_big_map_order_irrelevant.
